@@ -179,6 +179,8 @@ func Load(repo string, overlay map[string][]byte) (*Prog, error) {
 	computeRenames(p)
 	computeFieldRenames(p)
 	computeDevirt(p)
+	computeFuncValues(p)
+	adoptMovedBodies(p)
 	computeNewPackages(p)
 	p.LoadSecs = time.Since(t0).Seconds()
 	return p, nil
@@ -191,10 +193,10 @@ func (p *Prog) Pkg(rel string) *ssa.Package {
 
 // Func resolves "rel/pkg.Name" or "rel/pkg.(*T).Name" / "rel/pkg.(T).Name" to an SSA function with a body.
 func (p *Prog) Func(rel, name string) *ssa.Function {
-	if f := p.funcByName(rel, name); f != nil {
+	if f := p.funcByName(rel, name); f != nil && !bodyMovedOut[f] {
 		return f
 	}
-	// the recorded function may carry a new name (renames.go)
+	// the recorded function may carry a new name (renames.go), or its body may have moved behind a wrapper
 	full := ModPath + "/" + rel + "." + name
 	if strings.HasPrefix(name, "(") {
 		if i := strings.Index(name, ")"); i > 0 {
